@@ -154,17 +154,17 @@ func genMultiPairScenarios(tier string) []*Scenario {
 		{name: "string",
 			seeds: map[string][][]string{"none": nil, "k0": {c("SET", k0, "a")}, "k0k2": {c("SET", k0, "a"), c("SET", k2, "b")}},
 			ops: [][]string{c("MSET", k0, "x", k2, "y"), c("MSET", k2, "p", k0, "q"), c("MSET", k0, "m", k1, "n"), c("RENAME", k0, k2), c("RENAME", k2, k0), c("RENAME", k0, k1), c("RENAME", k1, k0),
-				c("DEL", k0, k2), c("EXISTS", k0, k2), c("MGET", k0, k2), c("SET", k0, "z"), c("SET", k2, "z"), c("APPEND", k0, "s"), c("INCR", k2), c("DEL", k0), c("GET", k2), c("SETNX", k2, "n")},
+				c("DEL", k0, k2), c("EXISTS", k0, k2), c("MGET", k0, k2), c("SET", k0, "z"), c("SET", k2, "z"), c("APPEND", k0, "s"), c("INCR", k2), c("DEL", k0), c("GET", k2), c("SETNX", k2, "n"), c("EXPIRE", k0, "0"), c("EXPIRE", k2, "0")},
 			nonAtom: map[string]bool{"DEL " + k0 + " " + k2: true, "EXISTS": true, "MGET": true}},
 		{name: "list",
 			seeds: map[string][][]string{"none": nil, "k0": {c("RPUSH", k0, "a")}, "k0k2": {c("RPUSH", k0, "a", "b"), c("RPUSH", k2, "c")}},
 			ops: [][]string{c("LMOVE", k0, k2, "LEFT", "RIGHT"), c("LMOVE", k2, k0, "LEFT", "RIGHT"), c("LMOVE", k0, k1, "RIGHT", "LEFT"), c("LMOVE", k0, k0, "LEFT", "RIGHT"), c("RENAME", k0, k2), c("RENAME", k2, k0),
-				c("RPUSH", k0, "x"), c("LPOP", k0), c("LPOP", k2), c("RPOP", k0, "2"), c("DEL", k0), c("DEL", k0, k2), c("LLEN", k2), c("LPUSHX", k2, "y")},
+				c("RPUSH", k0, "x"), c("LPOP", k0), c("LPOP", k2), c("RPOP", k0, "2"), c("DEL", k0), c("DEL", k0, k2), c("LLEN", k2), c("LPUSHX", k2, "y"), c("EXPIRE", k0, "0"), c("EXPIRE", k2, "0")},
 			nonAtom: map[string]bool{"DEL " + k0 + " " + k2: true}},
 		{name: "set",
 			seeds: map[string][][]string{"none": nil, "k0": {c("SADD", k0, "m")}, "k0k2": {c("SADD", k0, "m", "a"), c("SADD", k2, "b")}},
 			ops: [][]string{c("SMOVE", k0, k2, "m"), c("SMOVE", k2, k0, "m"), c("SMOVE", k0, k1, "m"), c("SMOVE", k0, k0, "m"), c("SUNIONSTORE", k1, k0, k2), c("SUNIONSTORE", k0, k0, k2), c("SINTERSTORE", k2, k0, k2), c("SDIFFSTORE", k0, k2, k0),
-				c("SUNION", k0, k2), c("SINTER", k2, k0), c("SADD", k0, "m"), c("SREM", k0, "m"), c("SREM", k2, "m"), c("SADD", k2, "z"), c("DEL", k0), c("RENAME", k0, k2), c("SCARD", k2)},
+				c("SUNION", k0, k2), c("SINTER", k2, k0), c("SADD", k0, "m"), c("SREM", k0, "m"), c("SREM", k2, "m"), c("SADD", k2, "z"), c("DEL", k0), c("RENAME", k0, k2), c("SCARD", k2), c("EXPIRE", k0, "0"), c("EXPIRE", k2, "0")},
 			nonAtom: map[string]bool{"SUNIONSTORE": true, "SINTERSTORE": true, "SDIFFSTORE": true, "SUNION": true, "SINTER": true}},
 	}
 	multi := map[string]bool{"MSET": true, "RENAME": true, "LMOVE": true, "SMOVE": true, "SUNIONSTORE": true, "SINTERSTORE": true, "SDIFFSTORE": true, "SUNION": true, "SINTER": true, "MGET": true, "EXISTS": true}
@@ -179,7 +179,10 @@ func genMultiPairScenarios(tier string) []*Scenario {
 		}
 		sortStrings(seedNames)
 		isMulti := func(a []string) bool { return multi[a[0]] || (a[0] == "DEL" && len(a) > 2) }
-		nonAtomic := func(a []string) bool { return f.nonAtom[a[0]] || f.nonAtom[strings.Join(a, " ")] }
+		// EXPIRE k 0 puts the deadline at the current second: a command running in that same second may
+		// or may not see the key (the one-second granularity of C06), so such a pair has no strict
+		// sequential specification - it is explored for deadlock, panic, leaked locks and invariants
+		nonAtomic := func(a []string) bool { return f.nonAtom[a[0]] || f.nonAtom[strings.Join(a, " ")] || a[0] == "EXPIRE" }
 		for _, sn := range seedNames {
 			for i := 0; i < len(f.ops); i++ {
 				for j := i; j < len(f.ops); j++ {
